@@ -8,3 +8,4 @@ import PqVerif.Props.C20
 import PqVerif.Props.C18
 import PqVerif.Props.C07
 import PqVerif.Props.C14
+import PqVerif.Props.C11
